@@ -373,8 +373,8 @@ MUTANTS = [
      ""),
     # ---- C17 (narrow)
     ("c17-gln-adjoint-unfix-like", ["C17"], "T4", G + "lie/core.py",
-     "def linear_matrix_action(linear_map, n, **kwargs):\n    base_ring, dtype",
-     "def linear_matrix_action(linear_map, n, **kwargs):\n    if \"like\" not in kwargs:\n        kwargs[\"like\"] = linear_map\n\n    base_ring, dtype"),
+     "def linear_matrix_action(linear_map, n, **kwargs):\n",
+     "def linear_matrix_action(linear_map, n, **kwargs):\n    if \"like\" not in kwargs:\n        kwargs[\"like\"] = linear_map\n\n"),
     ("c17-linear-action-unfix-batch", ["C17"], "SH8", G + "lie/core.py",
      "            map_matrix[..., i*n + j] = coords\n\n    return map_matrix\n\ndef sln_linear_action",
      "            map_matrix[:, i*n + j] = coords\n\n    return map_matrix\n\ndef sln_linear_action"),
@@ -382,14 +382,46 @@ MUTANTS = [
      "    b = np.where(A_d[..., 0, 1] < 0, -b, b)\n",
      "    if A_d[..., 0, 1] < 0:\n        b = -b\n"),
     ("c17-sl2-irrep-shape", ["C17"], "SH8", G + "lie/core.py",
-     "    im = utils.zeros(A.shape[:-2] +(n, n), like=A)",
-     "    im = utils.zeros(A.shape[:-1] +(n,), like=A)"),
+     "    im = utils.zeros(A.shape[:-2] +(n, n), like=A, integer_type=False)",
+     "    im = utils.zeros(A.shape[:-1] +(n,), like=A, integer_type=False)"),
     ("c17-block-include-slice", ["C17"], "SH8", G + "lie/core.py",
      "    arr[..., :A_dim, :A_dim] = A",
      "    arr[:A_dim, :A_dim] = A"),
     ("c17-slc-to-slr-size", ["C17"], "SH8", G + "lie/core.py",
      "    result = utils.zeros(mat.shape[:-2] + (2 * dim, 2 * dim),",
      "    result = utils.zeros(mat.shape[:-2] + (2 * dim, dim),"),
+    ("c12-from-angle-unfix-int", ["C12"], "LK1", H,
+     "                             like=like, dtype=dtype, base_ring=base_ring,\n                             integer_type=False)",
+     "                             like=like, dtype=dtype, base_ring=base_ring)"),
+    ("c12-standard-rotation-unfix-int", ["C12", "C13"], "LK1", H,
+     "            dimension, like=like, integer_type=False, **kwargs\n",
+     "            dimension, like=like, **kwargs\n"),
+    ("c17-sl2-irrep-unfix-int", ["C17"], "LK1", G + "lie/core.py",
+     "    im = utils.zeros(A.shape[:-2] +(n, n), like=A, integer_type=False)",
+     "    im = utils.zeros(A.shape[:-2] +(n, n), like=A)"),
+    ("c12-halfspace-unfix-int", ["C12"], "LK1", H,
+     "    halfspace_coords = utils.zeros(points.shape, like=points,\n                                   integer_type=False)\n",
+     "    halfspace_coords = np.zeros_like(points)\n"),
+    ("c18-svd-kernel-unconjugated", ["C18", "C16"], "SVD1",
+     G + "utils/numerical.py",
+     "    v = np.conjugate(vh)\n", "    v = vh\n"),
+    ("c12-hyperboloid-unfix-sheet", ["C12"], "HOM1", H,
+     "    hyperbolized = hyperbolized * np.where(hyperbolized[..., :1] < 0, -1, 1)\n",
+     ""),
+    ("c16-affine-divide-by-abs", ["C16", "C12"], "HOM1", G + "projective.py",
+     "        (apoints.T / apoints.T[_chart_index]).T,",
+     "        (apoints.T / np.abs(apoints.T[_chart_index])).T,"),
+    ("c20-hopf-drops-conjugate", ["C20"], "HOM1",
+     G + "complex_projective.py",
+     "    horizontal = utils.c_to_r(2 * np.conjugate(z0) * z1 / normsq)",
+     "    horizontal = utils.c_to_r(2 * z0 * z1 / normsq)"),
+    ("c20-hopf-wrong-denominator", ["C20"], "HOM1",
+     G + "complex_projective.py",
+     "    horizontal = utils.c_to_r(2 * np.conjugate(z0) * z1 / normsq)",
+     "    horizontal = utils.c_to_r(2 * np.conjugate(z0) * z1 / np.sqrt(normsq))"),
+    ("c12-poincare-midpoint-unnormalised", ["C12"], "HOM1", H,
+     "            klein_basis = self.ideal_basis_coords(model=Model.KLEIN)\n            klein_midpoint = klein_basis.sum(axis=-2) / klein_basis.shape[-2]",
+     "            klein_midpoint = kleinian_coords(self.ideal_basis.sum(axis=-2))"),
     # ---- C15
     ("c15-drop-reflection-guard", ["C15"], "R1", H,
      "        if (np.abs(eval_differences) > ERROR_THRESHOLD).any():\n            raise GeometryError(\"Not a reflection matrix\")\n",
@@ -671,6 +703,24 @@ NEUTRAL = [
     ("n-both-sorted", ["C05"], R,
      "        blocks = [self._differential(word, g, verbose=verbose)\n                  for g in self.asym_gens()]",
      "        blocks = [self._differential(word, g, verbose=verbose)\n                  for g in self.asym_gens() ]"),
+    ("n-sheet-by-where", ["C12", "C01", "C11"], H,
+     "    hyperbolized = hyperbolized * np.where(hyperbolized[..., :1] < 0, -1, 1)\n",
+     "    hyperbolized = np.where(hyperbolized[..., :1] < 0, -hyperbolized,\n                            hyperbolized)\n"),
+    ("n-sheet-by-masked-copy", ["C12", "C01", "C11"], H,
+     "    hyperbolized = hyperbolized * np.where(hyperbolized[..., :1] < 0, -1, 1)\n",
+     "    lower = hyperbolized[..., 0] < 0\n    hyperbolized = np.array(hyperbolized)\n    hyperbolized[lower] *= -1\n"),
+    ("n-klein-midpoint-mean", ["C12", "C14"], H,
+     "            klein_midpoint = klein_basis.sum(axis=-2) / klein_basis.shape[-2]",
+     "            klein_midpoint = klein_basis.mean(axis=-2)"),
+    ("n-hopf-abs-squared", ["C20"], G + "complex_projective.py",
+     "    normsq = np.abs(z0 * np.conjugate(z0) + z1 * np.conjugate(z1))",
+     "    normsq = np.abs(z0)**2 + np.abs(z1)**2"),
+    ("n-hopf-conj-other-side", ["C20"], G + "complex_projective.py",
+     "    horizontal = utils.c_to_r(2 * np.conjugate(z0) * z1 / normsq)",
+     "    horizontal = utils.c_to_r(np.conjugate(2 * z0 * np.conjugate(z1)) / normsq)"),
+    ("n-affine-divide-last-axis", ["C16", "C12"], G + "projective.py",
+     "        (apoints.T / apoints.T[_chart_index]).T,",
+     "        apoints / apoints[..., _chart_index, np.newaxis],"),
     ("n-aligned-sign", ["C12"], H,
      "        aligned = other.proj_data * np.expand_dims(-np.sign(products), axis=-1)",
      "        aligned = -np.sign(products)[..., np.newaxis] * other.proj_data"),
